@@ -1263,7 +1263,16 @@ func (p *balloons) Reconfigure(newCfg interface{}) error {
 		return err
 	}
 	log.Info("config updated successfully")
-	if err := p.Sync(p.cch.GetContainers(), p.cch.GetContainers()); err != nil {
+	// Release everything we know about, but re-admit only containers that
+	// still exist in the runtime: a stopped container never regains resources.
+	del := p.cch.GetContainers()
+	add := make([]cache.Container, 0, len(del))
+	for _, c := range del {
+		if state := c.GetState(); state == cache.ContainerStateCreated || state == cache.ContainerStateRunning {
+			add = append(add, c)
+		}
+	}
+	if err := p.Sync(add, del); err != nil {
 		log.Warnf("failed to sync containers: %v", err)
 	}
 	return nil
